@@ -256,7 +256,11 @@ def run(m: Model, r: Report, tier: str) -> None:
                     owner = next(s_ for s_ in ast.walk(f.node) if isinstance(s_, ast.stmt) and not isinstance(s_, (ast.FunctionDef, ast.AsyncFunctionDef, ast.If, ast.For, ast.While, ast.Try, ast.With))
                                  and any(x is n for x in ast.walk(s_)))
                     conds = path_condition(f.node, owner)
-                    guarded = any(pol and ("_is_sub_function_request(" in ast.unparse(t) or f"len({n.value.value.id}.pdu)" in ast.unparse(t)) for t, pol in conds)
+                    # (an applicability test such as _is_sub_function_request() is no length test: with the missing-sub-function rule switched off, the bare
+                    # service id of a sub-function service reaches this point)
+                    guarded = any(f"len({n.value.value.id}.pdu)" in ast.unparse(t) for t, pol in conds) or \
+                        any(isinstance(st_, ast.If) and f"len({n.value.value.id}.pdu)" in ast.unparse(st_.test) and st_.lineno < n.lineno and
+                            any(isinstance(x, (ast.Return, ast.Raise)) for x in st_.body) for st_ in ast.walk(f.node))
                     r.check(guarded, "R5", f"{f.qualname}#request.pdu[{k_}]",
                             f"request.pdu[{k_}] is read without a preceding applicability / length test: a shorter request (e.g. the bare service id) raises IndexError, "
                             "the server loop drops the connection", loc=f"{f.module.relpath}:{n.lineno}")
